@@ -981,4 +981,50 @@ func (ex *Exec) doSelect(st *State, fr *Frame, s *ssa.Select) {
 		tv.V = append(tv.V, v)
 	}
 	fr.Regs[s] = tv
+	// ghost assignments attached to this select ("after select#k set ..."): selidx is the chosen
+	// case, recvN the value received by case N (if it is a receive)
+	if sp := ex.Specs.Funcs[specName(fr.Fn)]; sp != nil && len(sp.GhostSets) > 0 {
+		if fr.CallCount == nil {
+			fr.CallCount = map[string]int{}
+		}
+		fr.CallCount["select"]++
+		for _, gs := range sp.GhostSets {
+			if gs.Callee != "select" || !(gs.Ord == 0 || gs.Ord == fr.CallCount["select"]) {
+				continue
+			}
+			env := ex.loopEnv(st, fr)
+			env.vars["selidx"] = TV{Scalar{idx}, types.Typ[types.Int]}
+			k := 2
+			for i, state := range s.States {
+				if state.Dir == types.RecvOnly {
+					et := under(state.Chan.Type()).(*types.Chan).Elem()
+					env.vars[fmt.Sprintf("recv%d", i)] = TV{tv.V[k], et}
+					k++
+				}
+			}
+			var vals []TV
+			ok := func() (ok bool) {
+				// a hook written for one select statement refers to receive cases another one may not have
+				defer func() {
+					if r := recover(); r != nil {
+						if te, isTool := r.(toolErr); isTool && strings.Contains(string(te), "unknown identifier recv") {
+							ok = false
+							return
+						}
+						panic(r)
+					}
+				}()
+				for _, e := range gs.Exprs {
+					vals = append(vals, env.eval(e))
+				}
+				return true
+			}()
+			if !ok {
+				continue
+			}
+			for i, n := range gs.Names {
+				env.setGhostGlobal(n, vals[i])
+			}
+		}
+	}
 }
